@@ -20,10 +20,13 @@
        tensors of evp.als have the same form).  Together with the Galerkin identity: every micro step solves the Galerkin
        system of the current frame, so it cannot increase the energy-norm error.
    NOT proved here (model + oracle-tape correspondence + side check only): the bookkeeping that composes these facts over
-   whole sweeps (flattening of the multi-indices, QR/RQ gauge changes keep the iterate), exactness at maximal ranks.  Known findings F16/F16b: MALS with an active max_rank is not monotone. *)
+   whole sweeps (flattening of the multi-indices, QR/RQ gauge changes keep the iterate).
+     - EXACTNESS AT MAXIMAL RANKS (C07_full_rank_exact): when the frame is unitary on the whole space (P P^H = I, the situation
+       at maximal TT ranks), a solution of the micro system P^H A P y = P^H b gives A (P y) = b.
+   Known findings F16/F16b: MALS with an active max_rank is not monotone. *)
 From Coq Require Import ZArith List Lia Arith.
 Import ListNotations.
-Require Import Ring Sums Matrix Core Chain TensordotProof Env EnvProof Galerkin FrameProof FrameProof2 RhsFrameProof.
+Require Import Ring Sums Matrix Core Chain TensordotProof Env EnvProof Galerkin FrameProof FrameProof2 RhsFrameProof FullRankProof.
 Open Scope cr_scope.
 
 Theorem C07_galerkin_descent (R : cring) (N : nat) (A : nat -> nat -> R)
@@ -99,3 +102,23 @@ Theorem C07_frame_rhs (R : cring) (Xp Bp Xs Bs : list (core R)) (B : core R) fx 
   sum (rl B) (fun be => sum (rr B) (fun be' => Kernel2 Xp Bp 0%nat 0%nat be c * g B be x 0%nat be' * RightProd2 Xs Bs be' c')).
 Proof. exact (frame_rhs_als Xp Bp Xs Bs B fx c x c'). Qed.
 Print Assumptions C07_frame_rhs.
+
+(* exactness at maximal ranks: a unitary frame turns the micro solution into the solution of the full system *)
+Theorem C07_full_rank_exact (R : cring) (n r : nat) (P A : M R) (b y : nat -> R) :
+  (forall i j, (i < n)%nat -> (j < n)%nat -> sum r (fun k => P i k * cconj R (P j k)) = delta i j) ->
+  (forall k, (k < r)%nat -> sum r (fun l => microM n P A k l * y l) = sum n (fun i => cconj R (P i k) * b i)) ->
+  forall i, (i < n)%nat -> sum n (fun j => A i j * lift r P y j) = b i.
+Proof. intros H. exact (full_rank_solve n r P A H b y). Qed.
+Print Assumptions C07_full_rank_exact.
+
+(* non-vacuity: the 2 x 2 permutation frame over Z is unitary; the micro solution of a concrete system solves it *)
+Example ex_full_rank :
+  let P : M Zring := fun i k => if Nat.eqb (i + k) 1 then 1%Z else 0%Z in
+  let A : M Zring := fun i j => match i, j with 0%nat, 0%nat => 2 | 0%nat, 1%nat => 1 | 1%nat, 0%nat => 1 | 1%nat, 1%nat => 1 | _, _ => 0 end%Z in
+  (forall i j, (i < 2)%nat -> (j < 2)%nat -> @sum Zring 2 (fun k => (P i k * P j k)%Z) = @delta Zring i j) /\
+  map (fun i => @sum Zring 2 (fun j => (A i j * @lift Zring 2 P (fun l => if Nat.eqb l 0 then 1%Z else 2%Z) j)%Z)) [0%nat; 1%nat] = [5%Z; 3%Z].
+Proof.
+  split.
+  - intros i j Hi Hj. destruct i as [|[|i]]; destruct j as [|[|j]]; try lia; vm_compute; reflexivity.
+  - vm_compute. reflexivity.
+Qed.
